@@ -179,7 +179,7 @@ def _reference_digests(text: str, solo_text: str | None = None, victim: str = ""
     the outcome of the damaged section when it is the only instrument section of its file."""
     from detsim import world
 
-    world.install_log_sink()
+    world.reference_process_state()
     solo = _solo_outcome(solo_text, victim) if solo_text is not None else None
     out = _reference_digests_inner(text)
     out["solo"] = solo
